@@ -134,6 +134,9 @@ func c02CheckStep(prefix string, r *v1beta1.Rollout, pre, post *v1beta1.CommonSt
 		verifrt.Assert(postS == v1beta1.CanaryStepStateMetricsAnalysis, prefix+".trafficRouting.successor")
 		done, failed, called := calls.last(stubDoTrafficRouting)
 		verifrt.Assert(called && done && !failed, prefix+".trafficDoneOnlyIfRoutingVerified")
+		// the step's pause (and its duration) counts from the moment the traffic rule was verified: the status'
+		// lastUpdateTime is stamped in this very reconcile, not carried over from the upgrade or an earlier patch
+		verifrt.Assert(post.LastUpdateTime != nil && !post.LastUpdateTime.Time.Before(vEntry), prefix+".pauseClockStartsWhenTrafficIsApplied")
 	case v1beta1.CanaryStepStateMetricsAnalysis:
 		verifrt.Assert(postS == v1beta1.CanaryStepStatePaused, prefix+".metrics.successor")
 	case v1beta1.CanaryStepStatePaused:
